@@ -61,6 +61,19 @@ impl Recorder {
 
 pub type Shared = Rc<RefCell<Recorder>>;
 
+/// Error kind of the k-th injected failure (write_all / read_exact style wrappers treat some specially).
+pub fn fault_kind(k: usize) -> io::ErrorKind {
+    const KINDS: [io::ErrorKind; 6] = [
+        io::ErrorKind::Other,
+        io::ErrorKind::Interrupted,
+        io::ErrorKind::UnexpectedEof,
+        io::ErrorKind::WouldBlock,
+        io::ErrorKind::BrokenPipe,
+        io::ErrorKind::WriteZero,
+    ];
+    KINDS[k % KINDS.len()]
+}
+
 pub struct PlanReader {
     pub data: Vec<u8>,
     pub pos: usize,
@@ -81,7 +94,10 @@ impl Read for PlanReader {
         if self.fail_at == Some(n) {
             rec.fault = true;
             rec.push(Ev::InFail);
-            return Err(io::Error::new(io::ErrorKind::Other, "injected input failure"));
+            // the property says "returns an error": every kind counts, also the ones that wrappers such
+            // as read_exact retry (Interrupted) or translate (UnexpectedEof); the kind rotates with the
+            // position of the failing request and the length of the input
+            return Err(io::Error::new(fault_kind(n + self.data.len()), "injected input failure"));
         }
         if buf.is_empty() {
             return Ok(0);
@@ -120,7 +136,7 @@ impl Write for PlanWriter {
             rec.fault = true;
             rec.push(Ev::OutFail(buf[0]));
             return if self.fail_with_err {
-                Err(io::Error::new(io::ErrorKind::Other, "injected output failure"))
+                Err(io::Error::new(fault_kind(rec.out_n + 1), "injected output failure"))
             } else {
                 Ok(0)
             };
